@@ -18,13 +18,17 @@ def run_case(c):
     else:
         root = build(c["tree"], AnyNode, nodes=nodes)
     NONE = 99          # token of Python's None (as an attribute value and as the searched value)
+    TOK = {99: None, 97: (0, 1), 96: [0]}      # tokens of values that are collections themselves
+    if c.get("pct"):
+        for n in nodes.values():
+            n.pct = "100%"                     # a '%' in every node's repr (it ends up in CountError messages)
     via = c.get("via")
     aname = c.get("aname", "a")        # the attribute's name is used literally, dots included
     if aname != "a":
         for n in nodes.values():
             n.a = 1                    # what a dotted traversal (parent.a) would find instead
     for k, v in c["attrs"]:
-        val = None if v == NONE else v
+        val = TOK[v] if v in TOK else v
         if via and not c.get("adv"):
             # the attribute exists without being in the instance dictionary: a class attribute, or a property
             base = type(nodes[k])
@@ -34,8 +38,8 @@ def run_case(c):
                 nodes[k].__class__ = type("WithProperty", (base,), {aname: property(lambda self, _v=val: _v)})
         else:
             setattr(nodes[k], aname, val)
-    if c["value"] == NONE:
-        c = dict(c, value=None)
+    if c["value"] in TOK:
+        c = dict(c, value=TOK[c["value"]])
     filt = (lambda n, s=set(c["filt"]): n.lbl in s) if c["filt"] is not None else None
     stop = (lambda n, s=set(c["stop"]): n.lbl in s) if c["stop"] is not None else None
     m = cachedsearch if c["cached"] else search
